@@ -60,6 +60,9 @@ type rewriter struct {
 	cen    *census
 	tmp    int
 	shared map[*types.TypeName]bool
+	// init and loop statement of the most recent mapRange rewrite (used for labeled loops)
+	lastInit ast.Stmt
+	lastLoop ast.Stmt
 }
 
 func main() {
@@ -301,8 +304,7 @@ func (rw *rewriter) file(f *ast.File) {
 			if t := rw.info.TypeOf(n.X); t != nil {
 				if _, ok := t.Underlying().(*types.Map); ok {
 					if _, lab := c.Parent().(*ast.LabeledStmt); lab {
-						rw.cen.Skipped = append(rw.cen.Skipped, "labeled map range at "+rw.fset.Position(n.Pos()).String())
-						return true
+						return true // handled when the LabeledStmt itself is visited (the label must stay on the loop)
 					}
 					c.Replace(rw.mapRange(n))
 					rw.cen.Rules["range-map"]++
@@ -359,6 +361,22 @@ func (rw *rewriter) file(f *ast.File) {
 				c.Replace(repl)
 				rw.cen.Rules["select"]++
 				used = true
+			}
+		case *ast.LabeledStmt:
+			if rs, ok := n.Stmt.(*ast.RangeStmt); ok {
+				if t := rw.info.TypeOf(rs.X); t != nil {
+					if _, ok := t.Underlying().(*types.Map); ok {
+						if c.Index() < 0 {
+							rw.cen.Skipped = append(rw.cen.Skipped, "labeled map range outside a statement list at "+rw.fset.Position(n.Pos()).String())
+							return true
+						}
+						rw.mapRange(rs)
+						n.Stmt = rw.lastLoop
+						c.InsertBefore(rw.lastInit)
+						rw.cen.Rules["range-map"]++
+						used = true
+					}
+				}
 			}
 		case *ast.GoStmt:
 			c.Replace(&ast.ExprStmt{X: &ast.CallExpr{Fun: simrtSel("Go"), Args: []ast.Expr{
@@ -522,10 +540,9 @@ func (rw *rewriter) mapRange(n *ast.RangeStmt) ast.Stmt {
 		X:    &ast.CallExpr{Fun: simrtSel("Keys"), Args: []ast.Expr{m}},
 		Body: body,
 	}
-	return &ast.BlockStmt{List: []ast.Stmt{
-		&ast.AssignStmt{Lhs: []ast.Expr{m}, Tok: token.DEFINE, Rhs: []ast.Expr{n.X}},
-		loop,
-	}}
+	rw.lastInit = &ast.AssignStmt{Lhs: []ast.Expr{m}, Tok: token.DEFINE, Rhs: []ast.Expr{n.X}}
+	rw.lastLoop = loop
+	return &ast.BlockStmt{List: []ast.Stmt{rw.lastInit, loop}}
 }
 
 // touchesShared reports whether the expressions evaluated by the statement itself (not by nested
